@@ -252,11 +252,15 @@ impl Exch {
     /// Drive the exchange along the canonical schedule (everything arrived, large buffers) until
     /// the flow is in the state named `until` (e.g. "RecvBody"); all oracles apply on the way.
     pub fn fast_forward(&mut self, until: &str) -> Result<(), String> {
+        self.fast_forward_k(until).map_err(|(k, w)| format!("fast_forward: [{}] {}", k, w))
+    }
+
+    pub fn fast_forward_k(&mut self, until: &str) -> R {
         let mut guard = 0;
         while self.flow.name() != until {
             guard += 1;
-            if guard > 200 {
-                return Err(format!("fast_forward: did not reach {} (stuck in {})", until, self.flow.name()));
+            if guard > 400 {
+                return Err((self.k("canonical", "stuck"), format!("canonical schedule did not reach {} (stuck in {})", until, self.flow.name())));
             }
             let act = match &self.flow {
                 AnyFlow::SendRequest(f) => if f.can_proceed() { Act::Proceed } else { Act::HeadWrite(16384) },
@@ -281,14 +285,30 @@ impl Exch {
                         Act::TryResponse
                     }
                 }
-                AnyFlow::RecvBody(f) => if f.can_proceed() { Act::Proceed } else if self.arrived < self.avail() { Act::Arrive(usize::MAX) } else { Act::Read(65536) },
+                AnyFlow::RecvBody(f) => {
+                    let close = self.cfg.expected_framing() == Framing::Close;
+                    if self.arrived < self.avail() {
+                        Act::Arrive(usize::MAX)
+                    } else if close && self.consumed < self.cfg.stream.len() {
+                        Act::Read(65536)
+                    } else if f.can_proceed() {
+                        Act::Proceed
+                    } else {
+                        Act::Read(65536)
+                    }
+                }
                 AnyFlow::Redirect(_) => Act::Proceed,
-                _ => return Err(format!("fast_forward: cannot leave {}", self.flow.name())),
+                _ => return Err((self.k("canonical", "stuck"), format!("canonical schedule cannot leave {}", self.flow.name()))),
             };
             let before = Sys::key(self);
-            self.step(&act).map_err(|(k, w)| format!("fast_forward: [{}] {}", k, w))?;
+            self.step(&act)?;
             if Sys::key(self) == before {
-                return Err(format!("fast_forward: canonical action {:?} made no progress in {}", act, self.flow.name()));
+                // a late interim 100 may sit before the head we jumped to: let everything arrive once
+                if self.arrived < self.avail() {
+                    self.arrived = self.avail();
+                    continue;
+                }
+                return Err((self.k("canonical", "no-progress"), format!("with everything arrived and large buffers, {:?} makes no progress in {}", act, self.flow.name())));
             }
         }
         Ok(())
@@ -1070,11 +1090,37 @@ impl Sys for Exch {
         if self.consumed != want_consumed {
             return Err((self.k("final", "consumed-total"), format!("exchange consumed {} server bytes but its messages are {} bytes long (the next exchange would start at the wrong byte)", self.consumed, want_consumed)));
         }
+        // On a reusable connection the next exchange starts at the first byte of the next response:
+        // run a complete second exchange on the bytes that remain.
+        if !must && !self.cfg.trailing.is_empty() && self.cfg.trailing.starts_with(b"HTTP/1.1 200") && self.cfg.trailing.ends_with(b"\r\n\r\n") {
+            let rest = &self.cfg.stream[self.consumed.min(self.cfg.stream.len())..];
+            let r = crate::engine::guarded(|| -> Result<(), String> {
+                let mut f = crate::props::flows::recv_response_flow("GET");
+                let (n, resp) = f.try_response(rest).map_err(|e| format!("{:?}", e))?;
+                let resp = resp.ok_or("no response")?;
+                if resp.status().as_u16() != 200 || n != self.cfg.trailing.len() {
+                    return Err(format!("parsed status {} consuming {} of {} bytes", resp.status(), n, rest.len()));
+                }
+                Ok(())
+            });
+            match r {
+                Ok(Ok(())) => {}
+                Ok(Err(e)) | Err(e) => {
+                    return Err((self.k("session", "next-exchange-desynchronised"), format!("the connection is reported reusable but the next exchange, started at stream offset {}, does not see the next response ({}): remaining bytes {:?}", self.consumed, e, show(&rest[..rest.len().min(60)]))));
+                }
+            }
+        }
         let want_payload = if self.body_entered { self.cfg.final_msg().payload().len() } else { 0 };
         if self.resp_body_out != want_payload {
             return Err((self.k("final", "response-body-incomplete"), format!("{} of {} response body bytes delivered", self.resp_body_out, want_payload)));
         }
         Ok(())
+    }
+
+    fn probe(&self) -> R {
+        let mut c = self.clone();
+        c.fast_forward_k("Cleanup")?;
+        c.final_check()
     }
 
     fn outcome(&self) -> String {
